@@ -61,18 +61,6 @@ def ModelDef.vocab : ModelDef → List (Id × Bytes)
   | .unigram v _ => v
   | .wordPiece v _ => v
 
-/-- Valid UTF-8 check (`core::str::from_utf8`): every lossy-decoded character is genuine. -/
-def validUtf8 (b : Bytes) : Bool :=
-  let rec go (fuel : Nat) (b : Bytes) : Bool :=
-    match fuel, b with
-    | _, [] => true
-    | 0, _ => false
-    | fuel + 1, x :: xs =>
-      match Utf8.decodeOne (x :: xs) with
-      | (some _, n) => go fuel ((x :: xs).drop n)
-      | (none, _) => false
-  go b.length b
-
 def maxLen (ks : List Bytes) : Nat := max ((ks.map List.length).foldl max 0) 1
 def minLen (ks : List Bytes) : Nat :=
   match ks with
